@@ -323,6 +323,11 @@ def deliver (ord : List Group → List Group) (vals : List Validator) (s : BStat
 /-- one step of a history: the staking module changes the validator set (environment), or a message is delivered -/
 inductive Step where
   | setVals (vals : List Validator)
+  /-- the chain is restarted from its exported genesis: oracle and ethbridge `ExportGenesis`, JSON, `InitGenesis` on
+      fresh stores, bank and staking carried over.  Export/import carries the whole bridge state (whitelist, admin,
+      every prophecy with both claim maps, peggy list, pause, fee receiver, blacklist): the step is the identity on the
+      model state.  That the real export/import is faithful is tied by the correspondence (`chk carry`). -/
+  | restart
   | msg (m : Msg)
 
 structure World where
@@ -331,6 +336,7 @@ structure World where
 
 def stepWorld (ord : List Group → List Group) (w : World) : Step → World
   | .setVals v => { w with vals := v }
+  | .restart => w
   | .msg m => { w with s := (deliver ord w.vals w.s m).1 }
 
 def run (ord : List Group → List Group) (w : World) (steps : List Step) : World := steps.foldl (stepWorld ord) w
